@@ -74,7 +74,7 @@ def gen_case(rng, nmax=30, metrics=('euclidean', 'euclidean', 'cityblock', 'cheb
                 bins = [round(b * 4) / 4.0 + 0.125 for b in bins]            # edges between distances
                 bins = sorted(set(bins))
             maxlag = None
-    case = {'coords': c.tolist(), 'values': v.tolist(), 'estimator': est, 'bin_func': bf, 'bins': bins,
+    case = {'coords': c.tolist(), 'values': v.tolist(), 'values_dtype': rng.choice([None, None, 'int64', 'uint8']), 'estimator': est, 'bin_func': bf, 'bins': bins,
             'maxlag': maxlag, 'n_lags': n_lags, 'dist_func': metric,
             'tags': {'points': kind, 'values': vkind, 'maxlag_form': mform, 'dim': int(c.shape[1]), 'n': n}}
     if cross:
@@ -89,8 +89,12 @@ def gen_cases(ctx, count, nmax=30, **kw):
 
 def build(case, **over):
     c = np.array(case['coords'], dtype=float)
-    v = np.array(case['values'], dtype=float)
-    if case.get('values2') is not None:
+    table = over.pop('values_table', None)        # a caller-owned (n,2) table handed over as it is
+    v = np.array(case['values'], dtype=float) if table is None else table
+    vd = case.get('values_dtype')
+    if table is None and vd and np.all(v == np.round(v)) and (vd != 'uint8' or (v.min() >= 0 and v.max() <= 255)) and case.get('values2') is None:
+        v = v.astype(vd)          # integer-typed observations are legitimate input
+    if case.get('values2') is not None and table is None:
         v = np.column_stack((v, np.array(case['values2'], dtype=float)))
     kw = dict(estimator=case['estimator'], dist_func=case['dist_func'], n_lags=case['n_lags'],
               maxlag=case['maxlag'], fit_method=None)
@@ -182,13 +186,19 @@ def eval_structure_case(ctx, model, case, prop='C01', V=None, checks=('model', '
         ctx.count('rejected', type(e).__name__)
         ctx.case_done(case, False)
         return None
+    if not (len(classes) == len(edges) == len(counts) == len(exp)):
+        ctx.problem('oracle', 'number of lag classes / pair counts / semivariances differs from the number of lag edges', case,
+                    {'edges': len(edges), 'classes': len(classes), 'counts': len(counts), 'experimental': len(exp)}, {'what': 'lengths-differ'})
+        ctx.case_done(case, False)
+        return V
     sparse_path = not isinstance(V.distance_matrix, np.ndarray)
     ctx.count('path', 'sparse' if sparse_path else 'dense')
     n = len(case['coords'])
     v = np.array(case['values'], dtype=float)
     est_fn = V._estimator
     if not (np.all(np.isfinite(D)) and np.all(np.isfinite(edges))):
-        ctx.problem('oracle', 'non-finite distance or edge', case, {'edges': edges.tolist()})
+        # no pair distance within the maximum lag: the quantile / range of nothing (outside C02's guard, nothing to classify)
+        ctx.count('degenerate_nan_edges')
         ctx.case_done(case, False)
         return V
     # ---------------- correspondence with the executable model
@@ -296,6 +306,12 @@ def eval_structure_case(ctx, model, case, prop='C01', V=None, checks=('model', '
                     sig = {'what': 'pair count of a lag class differs from brute force', 'path': 'sparse' if sparse_path else 'dense'}
                     if sparse_path and len(mem) - int(counts[i]) == len(zero_pairs) and zero_pairs:
                         sig = {'what': 'zero-distance pairs missing', 'path': 'sparse'}
+                    ml_ = case.get('maxlag')
+                    if (sparse_path and case.get('bins') is None and case['bin_func'] in AUTO + ['rice'] and isinstance(ml_, float) and ml_ >= 1
+                            and len(set(float(x) for x in dall if x <= ml_)) < 2 and float(edges[-1]) > ml_ and len(mem) > int(counts[i])):
+                        # F17: a zero-width range handed to numpy's rule-based binning is widened by +-0.5; the edge exceeds maxlag and the
+                        # truncated distance matrix does not hold the pairs between maxlag and that edge
+                        sig = {'what': 'rule-based-zero-range-edge-exceeds-maxlag', 'path': 'sparse'}
                     ctx.problem('oracle', 'class %d: %d pairs counted, %d pairs have edge[i-1] <= d < edge[i]' % (i, int(counts[i]), len(mem)),
                                 case, {'class': i, 'edges': edges.tolist(), 'impl': int(counts[i]), 'brute': len(mem), 'path': sig['path']}, sig)
                     break
@@ -353,3 +369,25 @@ def run_golden(ctx, coq, model):
         f, a, r = model.golden[idx[0]]
         coq.broken.append({'kind': 'extraction', 'file': 'Cases/%s_cases.v' % ctx.pid, 'lemma': 'vm_compute vs extracted model',
                            'error': 'in-Coq evaluation of %s differs from the extracted code on %d case(s)' % (f, len(idx))})
+
+
+def ward_reference(ctx, case, V, edges, maxlag_abs):
+    """dense path against the documented construction of bin_func='ward': cluster the distances within maxlag (in the
+    order the space enumerates them), centres = cluster means, edges half-way between neighbouring centres"""
+    try:
+        from sklearn.cluster import AgglomerativeClustering
+        dall = np.asarray(V.distance, float)
+        ml = dall.max() if maxlag_abs is None else min(maxlag_abs, dall.max())
+        dref = dall[dall <= ml]
+        lab = AgglomerativeClustering(linkage='ward', n_clusters=case['n_lags']).fit(dref.reshape(-1, 1)).labels_
+        cen = np.sort([dref[lab == i].mean() for i in np.unique(lab)])
+        eref = np.array([(lo + up) / 2 for lo, up in zip([0] + list(cen)[:-1], cen)])
+        edges = np.asarray(edges, float)
+        if len(eref) != len(edges) or not all(gen.close(p_, q_, 1e-12, 1e-12) for p_, q_ in zip(eref, edges)):
+            ctx.problem('oracle', 'dense path: ward lag edges are not the mid-points between the means of the clusters of the distances within maxlag', case,
+                        {'edges': edges.tolist(), 'reference': eref.tolist(), 'maxlag': ml}, {'what': 'ward-reference', 'path': 'dense'})
+            return False
+        ctx.tests['ward_reference'] = ctx.tests.get('ward_reference', 0) + 1
+    except Exception as e:
+        ctx.count('ward_reference_rejected', type(e).__name__)
+    return True
